@@ -4,7 +4,7 @@
    statement holds for any scalar structure S (reals, binary64) and for decks of
    any size. *)
 From Coq Require Import List NArith ZArith Bool String Ascii Lia.
-From T4V Require Import Base.Str Base.Scalar C17.Model C17.Proofs C17.ProofsStrings C17.ProofsSteps.
+From T4V Require Import Base.Str Base.Scalar C17.Model C17.Proofs C17.ProofsStrings C17.ProofsSteps C17.ProofsClasses.
 Import ListNotations.
 Open Scope string_scope.
 
@@ -416,6 +416,112 @@ Theorem C17_arrives_options : forall T (S : Scalar T) trs,
      arrives S trs l k l1 k1 n -> arrives S trs l1 k1 l2 k2 m -> arrives S trs l k l2 k2 (n + m)).
 Proof. exact @p_C17_arrives_options. Qed.
 Print Assumptions C17_arrives_options.
+
+(* ---------------- the open finding classes, characterised ---------------- *)
+
+(* surplus_surface_params / gq_short_params: a card of an elementary mnemonic
+   whose number of entries is not the manual's ([manual_arity]) is converted
+   exactly when [wrongly_accepted]: >= 2 entries on PX PY PZ SO CX CY CZ, >= 3 on
+   SX SY SZ, >= 4 on C/X C/Y C/Z and KX KY KZ, >= 6 on K/X K/Y K/Z, >= 11 on SQ,
+   any count but 10 on GQ; every other wrong count is rejected *)
+Theorem C17_surplus_surface_params_exact : forall T (S : Scalar T) mn (p : list T),
+  In mn elementary -> p <> [] -> manual_arity mn (List.length p) = false ->
+  is_ok (surface_check S mn p) = wrongly_accepted mn (List.length p).
+Proof. exact @surplus_surface_params_exact. Qed.
+Print Assumptions C17_surplus_surface_params_exact.
+
+Example wrongly_accepted_table :
+  map (fun c => wrongly_accepted (fst c) (snd c))
+      [("so", 2); ("kz", 4); ("kz", 1); ("k/z", 6); ("gq", 9); ("gq", 11); ("sq", 9); ("p", 5); ("s", 5);
+       ("tz", 7); ("x", 6)]%nat
+  = [true; true; false; true; true; true; false; false; false; false; false].
+Proof. reflexivity. Qed.
+
+(* fill_array_surplus_3 / _tr / _2_void and C06's array_entry_transformation:
+   whatever tokens follow the size(ranges) universes of a FILL array are handed,
+   all together, to the function that reads the transformation of FILL=n (...);
+   the array is accepted iff that function accepts them (nothing: no
+   transformation; one number: a TR card; three: a translation; 2, 6, 9, 12, 14+:
+   a matrix, see C17_tr_arity_exact) *)
+Theorem C17_fill_array_trailing_numbers : forall T (S : Scalar T) star trs first rs
+    (nums more : list (tok (T:=T))) b,
+  has_colon first = true -> forallb has_colon rs = true ->
+  Forall (fun t => has_colon t = false) nums -> Forall (plain (T:=T)) nums ->
+  parse_ranges (map tsp (first :: rs)) = Ok b ->
+  Z.of_nat (List.length nums) = bounds_size b -> nums <> [] ->
+  parse_fill S star trs (first :: rs ++ nums ++ more)%list =
+  bind (fill_params S true star trs more)
+       (fun p => Ok (mkFill (Some b) (map (fun t => Some (tint t)) nums) (fst p), snd p)).
+Proof. exact @fill_array_trailing_numbers. Qed.
+Print Assumptions C17_fill_array_trailing_numbers.
+
+(* facet_unchecked_in_skipped_cell: the conversion stage (the only place where
+   facets of untransformed cells are checked) looks at no cell of importance 0,
+   of a universe other than 0, or with LAT: whatever their literals *)
+Theorem C17_facet_skipped_cells_unchecked : forall T (S : Scalar T) (sm : smap) all
+    (cells : list (cellc * cellsum (T:=T))),
+  forallb (not_converted S) cells = true -> stage_convert S sm all cells = Ok tt.
+Proof. exact @stage_convert_skips. Qed.
+Print Assumptions C17_facet_skipped_cells_unchecked.
+
+(* ---------------- which rejections name the problem ---------------- *)
+
+(* the exception class of every rejected entry count of every elementary
+   mnemonic ([elem_error]); those of S C K SX.. C/X.. K/X.. KX.. SQ T are raised by
+   Python itself (TypeError, IndexError, KeyError) and say nothing about the card *)
+Theorem C17_surface_rejection_class : forall T (S : Scalar T) mn (p : list T),
+  In mn elementary -> p <> [] -> elem_accepts mn (List.length p) = false ->
+  surface_check S mn p = Err (elem_error mn).
+Proof. exact @surface_rejection_class. Qed.
+Print Assumptions C17_surface_rejection_class.
+
+Theorem C17_anonymous_surface_rejections : forall T (S : Scalar T) mn (p : list T),
+  In mn ["s";"c";"k";"sx";"sy";"sz";"c/x";"c/y";"c/z";"k/x";"k/y";"k/z";"kx";"ky";"kz";"sq";"t"] ->
+  p <> [] -> elem_accepts mn (List.length p) = false ->
+  exists e, surface_check S mn p = Err e /\ anonymous e = true.
+Proof. exact @anonymous_surface_rejections. Qed.
+Print Assumptions C17_anonymous_surface_rejections.
+
+(* a transformation with 8 entries ends in a bare StopIteration, the other
+   refused counts in a TransformationError *)
+Theorem C17_tr_arity_error_class : forall T (S : Scalar T) (t : list T),
+  List.length t <> 13%nat -> tr_len_ok (List.length t) = false ->
+  norm_tr_len S t = Err (if (List.length t =? 8)%nat then EStopIteration else ETransformation).
+Proof. exact @tr_arity_error_class. Qed.
+Print Assumptions C17_tr_arity_error_class.
+
+(* ---------------- transformation lengths at the FILL and lattice stages ---------------- *)
+
+(* in every finished run: FILL=n of a real-world cell with a transformation (its
+   own, else its TRCL) into a universe that has a cell with a surface uses 12
+   entries (the 10/11-entry results of 1- and 2-entry forms stop the run there) *)
+Theorem C17_fill_transformation_length : forall T (S : Scalar T) (d : deckm (T:=T)),
+  validate S d = Ok tt ->
+  forall lat trs sm imps cells,
+    parse_lattice (d_latopts d) = Ok lat -> stage_trs S (d_trs d) [] = Ok trs ->
+    stage_surfs S trs (d_surfs d) [] = Ok sm -> imp_cards_check S (d_imps d) = Ok imps ->
+    stage_cells S trs imps lat 0 (d_cells d) = Ok cells ->
+    forall c cs u k fc, In (c, cs) cells -> cs_fill cs = Some (FUniv u) -> cs_lat cs = None ->
+      cs_u cs = 0%Z -> fill_tr_length cs = Some k -> In fc (fillers u cells) ->
+      c_lits (fst fc) <> [] -> k = 12%nat.
+Proof. exact @run_fill_transformation_length. Qed.
+Print Assumptions C17_fill_transformation_length.
+
+(* ... and a lattice with at least one element that is not void has no fill
+   transformation or a full one, and without one a full TRCL *)
+Theorem C17_lattice_transformation_length : forall T (S : Scalar T) (d : deckm (T:=T)),
+  validate S d = Ok tt ->
+  forall lat trs sm imps cells,
+    parse_lattice (d_latopts d) = Ok lat -> stage_trs S (d_trs d) [] = Ok trs ->
+    stage_surfs S trs (d_surfs d) [] = Ok sm -> imp_cards_check S (d_imps d) = Ok imps ->
+    stage_cells S trs imps lat 0 (d_cells d) = Ok cells ->
+    forall c cs z b univs, In (c, cs) cells -> cs_lat cs = Some z ->
+      cs_fill cs = Some (FLat b univs) -> c_compl c = [] ->
+      existsb univ_nonzero univs = true ->
+      (cs_filltr cs = 0 \/ 12 <= cs_filltr cs)%nat /\
+      (cs_filltr cs = 0%nat -> forall k, cs_trcl cs = Some k -> (12 <= k)%nat).
+Proof. exact @run_lattice_transformation_length. Qed.
+Print Assumptions C17_lattice_transformation_length.
 
 (* ---------------- summary ---------------- *)
 
